@@ -133,7 +133,14 @@ pub fn check(t: &Trace<'_>, out: &mut CaseOut) -> bool {
                 judge(prev, *t_end, "until the end of the last wait", out);
             }
         }
-        // (c)/(d)/(e) dead-peer detection
+        // (c)/(d)/(e) dead-peer detection - not on a connection whose inbound stream was stalled in
+        // the middle (a PINGRESP queued behind the stall has reached neither the transport's
+        // reader nor the client: when it "arrived" is not defined); cadence is judged all the same
+        let stalled = w.events[ci.ev_begin..ci.ev_end.min(w.events.len())].iter().any(|e| matches!(e, Ev::GateHit { .. }));
+        if stalled {
+            out.count("connections_with_a_stalled_inbound_stream", 1);
+            continue;
+        }
         let busy_all: Vec<(u64, u64)> = w.events.iter().filter_map(|e| match e { Ev::SlowWrite { conn, from, to } if *conn == ci.idx => Some((*from, *to)), _ => None }).collect();
         let disc: Vec<&&OpRec> = ops.iter().filter(|o| o.outcome == Outcome::Err(ErrRepr::Disconnected) && o.live_before).collect();
         let external_cause = |o: &OpRec| {
